@@ -12,6 +12,32 @@ import string as _string
 _EXT_CONSTS = {"string.hexdigits": _string.hexdigits, "string.digits": _string.digits, "string.ascii_letters": _string.ascii_letters}
 
 
+def _iterate(it, env):
+    """Environments for the items of an iterable term: elem(it) bound to the item; for zip(xs, ys) / enumerate(xs) the elements of the
+    zipped sequences (position(xs)) are bound as the abstract evaluator names them."""
+    if isinstance(it, App) and it.op == "call:zip" and len(it.args) >= 2:
+        seqs = [list(teval(x, env)) for x in it.args]
+        for items in zip(*seqs):
+            e2 = dict(env)
+            e2[App("elem", (it,))] = tuple(items)
+            for x, v in zip(it.args, items):
+                e2[App("elem", (x,))] = v
+            yield e2
+        return
+    if isinstance(it, App) and it.op == "call:enumerate" and len(it.args) in (1, 2):
+        start = teval(it.args[1], env) if len(it.args) == 2 else 0
+        for i, v in enumerate(list(teval(it.args[0], env))):
+            e2 = dict(env)
+            e2[App("elem", (it,))] = (i + start, v)
+            e2[App("elem", (it.args[0],))] = v
+            e2[App("position", (it.args[0],))] = i
+            yield e2
+        return
+    el = App("elem", (it,))
+    for item in teval(it, env):
+        yield {**env, el: item}
+
+
 def _subterms(t):
     yield t
     if isinstance(t, App):
@@ -153,11 +179,8 @@ def teval(t: Term, env: dict):
             raise Unknown(f"slice: {e}")
     if op in ("call:all", "call:any") and len(a) == 1 and isinstance(a[0], App) and a[0].op in ("comp:gen", "comp:list") and len(a[0].args) == 3:
         body, it, conds = a[0].args
-        items = ev(it)
-        el = App("elem", (it,))
         vals = []
-        for item in items:
-            env2 = {**env, el: item}
+        for env2 in _iterate(it, env):
             if all(teval(c, env2) for c in conds.args):
                 vals.append(bool(teval(body, env2)))
         return all(vals) if op == "call:all" else any(vals)
@@ -199,13 +222,27 @@ def teval(t: Term, env: dict):
             raise Unknown(f"{op}: {e}")
     if op in ("comp:list", "comp:gen") and len(a) == 3:
         body, it, conds = a
-        el = App("elem", (it,))
         out = []
-        for item in ev(it):
-            env2 = {**env, el: item}
+        for env2 in _iterate(it, env):
             if all(teval(c, env2) for c in conds.args):
                 out.append(teval(body, env2))
         return out
+    if op in ("call:sum", "call:min", "call:max", "call:len", "call:sorted", "call:reversed", "call:abs") and len(a) >= 1:
+        import builtins as _b
+        vals = [ev(x) for x in a]
+        try:
+            r_ = getattr(_b, op[5:])(*vals)
+            return list(r_) if op == "call:reversed" else r_
+        except Unknown:
+            raise
+        except Exception as e:
+            raise Unknown(f"{op}: {e}")
+    if op == "call:range" and 1 <= len(a) <= 3:
+        return range(*[ev(x) for x in a])
+    if op == "call:zip":
+        return list(zip(*[ev(x) for x in a]))
+    if op == "call:enumerate" and len(a) in (1, 2):
+        return list(enumerate(ev(a[0]), *( [ev(a[1])] if len(a) == 2 else [])))
     if op == "loopout" and len(a) == 3 and "__loops__" in env:
         # the value a name has after a loop: fold the per-iteration values of all names the loop carries over the items of the
         # loop's iterable.  `for x in xs` where the body mutates xs itself walks the live list by index, as Python does.
